@@ -237,7 +237,10 @@ where
     #[inline]
     pub fn next(&mut self) -> Option<Result<(&mut R, O), E>> {
         vsync!("C.recv", false);
-        self.done_recv.recv().unwrap().map(move |result| {
+        // A closed channel means that the reader thread exited without sending
+        // the end marker (reader initialization failed): there are no results,
+        // the error is returned when the thread is joined.
+        self.done_recv.recv().unwrap_or(None).map(move |result| {
             match result {
                 Ok((r, o)) => {
                     vsync!("C.recv.ok", true);
